@@ -101,6 +101,7 @@ func signature(buf []byte, want vref.Outcome, bad bool) {
 	vx.Key("ref", want.KindName())
 	vx.Key("trace", want.Trace)
 	vx.Key("depth", want.Depth)
+	vx.Key("bom", want.BOM)
 	if bad && want.Kind == vref.Reject {
 		// class of the offending byte (forks only on failing paths)
 		vx.Key("rejcls", vref.ClassSymbol(vx.Concrete(vref.ClassIndex(buf[want.At]))))
